@@ -477,3 +477,74 @@ Proof.
     + exact (IH (fun a' Ha' => Hall a' (or_intror Ha'))).
     + unfold LedgerProofs.qsum. cbn [fold_right]. ring.
 Qed.
+
+(* ------------------------------------------------------------ the executable list of aggregated accounts *)
+
+Lemma dedup_acc_in x : forall l, In x (dedup_acc l) -> In x l.
+Proof.
+  induction l as [|y l IH]; cbn [dedup_acc]; intros H; [exact H|].
+  destruct (existsb (acc_eqb y) l); [right; exact (IH H)|].
+  destruct H as [<-|H]; [left; reflexivity|right; exact (IH H)].
+Qed.
+
+Lemma dedup_acc_nodup : forall l, NoDup (dedup_acc l).
+Proof.
+  induction l as [|y l IH]; cbn [dedup_acc]; [constructor|].
+  destruct (existsb (acc_eqb y) l) eqn:E; [exact IH|]. constructor; [|exact IH].
+  intros Hin. apply dedup_acc_in in Hin.
+  assert (Ht : existsb (acc_eqb y) l = true) by (apply existsb_exists; exists y; split; [exact Hin|apply acc_eqb_refl]).
+  congruence.
+Qed.
+
+Lemma dedup_acc_keeps x : forall l, (forall y, In y l -> account_ok y = true) -> In x l -> In x (dedup_acc l).
+Proof.
+  induction l as [|y l IH]; intros Hok Hin; [destruct Hin|]. cbn [dedup_acc].
+  assert (Hok' : forall z, In z l -> account_ok z = true) by (intros z Hz; apply Hok; right; exact Hz).
+  destruct (existsb (acc_eqb y) l) eqn:E.
+  - destruct Hin as [->|Hin]; [|exact (IH Hok' Hin)].
+    apply existsb_exists in E. destruct E as (z & Hz & Ez).
+    apply acc_eqb_name in Ez. apply acc_name_inj in Ez; [|apply Hok; left; reflexivity|apply Hok'; exact Hz].
+    subst z. exact (IH Hok' Hz).
+  - destruct Hin as [->|Hin]; [left; reflexivity|right; exact (IH Hok' Hin)].
+Qed.
+
+Theorem sources_of_spec cfg dl b : postings_syntactic dl -> row_sources cfg dl b (sources_of cfg dl b).
+Proof.
+  intros Hsyn. unfold sources_of.
+  set (L := filter (fun a => lands_on cfg b a && acc_pass cfg a) (map (fun dp : Z * posting => p_acc (snd dp)) (flat_postings dl))).
+  assert (HL : forall y, In y L -> account_ok y = true /\ lands_on cfg b y = true /\ acc_pass cfg y = true).
+  { intros y Hy. unfold L in Hy. apply filter_In in Hy. destruct Hy as [Hy Hf]. apply andb_true_iff in Hf.
+    apply in_map_iff in Hy. destruct Hy as ([d p] & <- & Hdp). split; [exact (Hsyn d p Hdp)|exact Hf]. }
+  split; [apply dedup_acc_nodup|]. split.
+  - intros a Ha. apply HL. apply dedup_acc_in. exact Ha.
+  - intros d p Hdp Hl Hp. apply dedup_acc_keeps; [intros y Hy; exact (proj1 (HL y Hy))|].
+    unfold L. apply filter_In. split; [|rewrite Hl, Hp; reflexivity].
+    apply in_map_iff. exists (d, p). split; [reflexivity|exact Hdp].
+Qed.
+
+(* an account shown as itself is the only one on its row *)
+Lemma lands_on_self cfg a : account_ok a = true -> shows_account cfg a -> lands_on cfg a a = true.
+Proof.
+  intros Ha Hsh. specialize (Hsh a Ha). unfold lands_on.
+  destruct (shorten (bc_mapping cfg) (remap (bc_remap cfg) a)) as [b'| |]; [rewrite Hsh|rewrite acc_eqb_refl in Hsh; discriminate..].
+  apply acc_eqb_refl.
+Qed.
+
+(* ------------------------------------------------------------ example data (Properties/C03.v) *)
+(* Assets:B:X buys 1.5 A on 2021-03-01, Assets:B:Y buys 0.3 A on 03-03; prices of A in C as in
+   MarkToMarketFinal.exr_journal; the report is valued in C, daily over 03-02 .. 03-04, with --close
+   and --mapping 2 (every account is cut to two segments): both accounts are shown on the row
+   Assets:B. *)
+Open Scope Z_scope.
+Definition exm_x : account := [s_Assets; [66]; [88]].
+Definition exm_y : account := [s_Assets; [66]; [89]].
+Definition exm_b : account := [s_Assets; [66]].
+Definition exm_journal : list sdirective :=
+  [ SOpen exr_d0 exm_x; SOpen exr_d0 exm_y; SOpen exr_d0 exr_o;
+    SPrice exr_d0 exr_c (mkDec 123456789 (-8)) exr_V;
+    STxn (mkStxn exr_d0 [] [mkBooking exr_o exm_x (mkDec 15 (-1)) exr_c] None None);
+    SPrice (exr_d0 + 1) exr_c (mkDec 200000001 (-8)) exr_V;
+    STxn (mkStxn (exr_d0 + 2) [] [mkBooking exr_o exm_y (mkDec 3 (-1)) exr_c] None None);
+    SPrice (exr_d0 + 3) exr_c (mkDec 333333333 (-8)) exr_V ].
+Definition exm_cfg : balance_cfg :=
+  mkBalanceCfg (exr_d0 + 1) (exr_d0 + 3) Daily 0 false true (Some exr_V) true [mkRule 2 0 None] [] [] [] [] true.
